@@ -253,6 +253,8 @@ def run_case(case: dict) -> dict:
                             fp.write(chunk.decode("ascii"))
                         elif isinstance(fp, io.RawIOBase):
                             # raw stream: honour the returned count like any RawIOBase user
+                            if not chunk:
+                                fp.write(b"")
                             while chunk:
                                 w = fp.write(chunk)
                                 if not w:
